@@ -176,7 +176,18 @@ class Gen18:
         # specs content must not be rendered: the twin simply has no <specs>
         P = "<svg>\n" + "\n".join(head_p + uses_p + tail_p) + "\n</svg>"
         U = "<svg>\n" + "\n".join(pre + uses_u) + "\n</svg>"
-        feats = sorted(set("template." + k for k, _ in self.templates.values()) | {"specs." + ("first" if specs_first else "last")} | ({"globals"} if glob else set())
+        # binding names: any name the documentation allows (letters, digits, underscore, not starting with a digit)
+        scheme = r.choice(["plain", "plain", "underscore", "mixed"])
+        if scheme != "plain":
+            ren = {"underscore": {"w": "_w", "h": "_h", "lab": "_lab", "cls": "_cls", "n": "_n"},
+                   "mixed": {"w": "W_1", "h": "h2_", "lab": "__l", "cls": "Cls9", "n": "_"}}[scheme]
+
+            def rename(text):
+                text = re.sub(r"(?<=\s)(w|h|lab|cls|n)=", lambda m: ren[m.group(1)] + "=", text)
+                text = re.sub(r"\$\{(w|h|lab|cls|n)\}", lambda m: "${" + ren[m.group(1)] + "}", text)
+                return re.sub(r"\$(w|h|lab|cls|n)\b", lambda m: "$" + ren[m.group(1)], text)
+            P, U = rename(P), rename(U)
+        feats = sorted({"names." + scheme} | set("template." + k for k, _ in self.templates.values()) | {"specs." + ("first" if specs_first else "last")} | ({"globals"} if glob else set())
                        | set("placement." + pl for _, pl in self.templates.values()))
         return P, U, nbound, len(uses_p), feats
 
